@@ -43,6 +43,29 @@ def apply_edits(d, edits):
         open(p, "w").write(s)
 
 
+def apply_patch(d, patch):
+    r = subprocess.run(["git", "apply", "--whitespace=nowarn", "--exclude=_seed/*", patch], cwd=d, stdout=subprocess.PIPE, stderr=subprocess.STDOUT, text=True)
+    if r.returncode != 0:
+        raise RuntimeError("patch does not apply to the current tree: %s" % r.stdout.strip().splitlines()[-1:] )
+
+
+def patch_corpus(kind):
+    """independently written changes kept as patches: seeded/ (property-breaking) or selftest/refactorings/ (benign)"""
+    base = os.path.join(VERIF, "seeded") if kind == "seeded" else os.path.join(HERE, "refactorings")
+    out = []
+    for name in sorted(os.listdir(base)) if os.path.isdir(base) else []:
+        mp = os.path.join(base, name, "meta.json")
+        pp = os.path.join(base, name, "patch.diff")
+        if not (os.path.exists(mp) and os.path.exists(pp)):
+            continue
+        meta = json.load(open(mp))
+        prop = meta.get("breaks_property") or meta.get("targets_property_code")
+        fired = sorted((meta.get("checks_fired_at_confirmation") or {}).keys())
+        props = [prop] + [p for p in fired if p != prop] if kind == "seeded" else ["C%02d" % i for i in range(1, 18)]
+        out.append(dict(id=name, props=props, patch=pp, what="%s (%s)" % (kind, prop), edits=[("patch",)]))
+    return out
+
+
 def run_check(d, pid, tier="quick"):
     env = dict(os.environ, FML_REPO=d, FML_SCRATCH="1", FML_EVIDENCE_DIR=os.path.join(d, "evidence"))
     r = subprocess.run([os.path.join(VERIF, "bin", "check"), pid, "--tier", tier], env=env, cwd=VERIF,
@@ -55,24 +78,38 @@ def main():
     ap.add_argument("--only", default="")
     ap.add_argument("--props", default="")
     ap.add_argument("--benign", action="store_true")
+    ap.add_argument("--seeded", action="store_true", help="the independently written property-breaking patches in seeded/")
+    ap.add_argument("--refactorings", action="store_true", help="the independently written behaviour-preserving patches in selftest/refactorings/")
     ap.add_argument("--verbose", "-v", action="store_true")
     a = ap.parse_args()
     m = load_mutants()
     only = set(x for x in a.only.split(",") if x)
     implemented = set(x for x in a.props.split(",") if x)
     todo = m.BENIGN if a.benign else m.MUTANTS
+    if a.seeded:
+        todo = patch_corpus("seeded")
+    if a.refactorings:
+        todo = patch_corpus("refactorings")
+        a.benign = True
     res = []
     for mu in todo:
         mid, props, edits = mu["id"], mu["props"], mu["edits"]
         if only and mid not in only:
             continue
-        props = [p for p in props if not implemented or p in implemented]
+        if a.seeded and implemented:
+            # own property first: a seed counts for a property only if it breaks it (or fired there at confirmation)
+            props = [p for p in props if p in implemented]
+        else:
+            props = [p for p in props if not implemented or p in implemented]
         if not props:
             continue
         d = make_scratch()
         try:
             try:
-                apply_edits(d, edits)
+                if "patch" in mu:
+                    apply_patch(d, mu["patch"])
+                else:
+                    apply_edits(d, edits)
             except RuntimeError as e:
                 print("%-5s SKIP (%s)" % (mid, e))
                 continue
